@@ -894,6 +894,144 @@ def t2_history_units(thorough: bool):
 
 
 # =========================================================================================== entry points
+# =========================================================================================== schedule leg (E3b)
+# Completion orders treat a task body as one step.  This leg lets the bodies of the real T1 / T2 fan-out interleave: the
+# stage's own ThreadPoolExecutor is replaced by baton-scheduled workers (mc.sched_pool; scheduling point = every line
+# event of the stage files) and every schedule with at most one preemption is executed; each result must equal the
+# sequential path's (same comparison as the completion-order legs: cache diagnostics excluded).
+def sched_units(thorough: bool):
+    units = []
+    pairs = [["g1", "g2"], ["g2", "g3"], ["g3", "g1"]] if thorough else [["g1", "g2"], ["g3", "g1"]]
+    for graphs in pairs:
+        for text in (("apple", "pear fig") if thorough else ("apple pear fig plum quince",)):
+            for warm in ((False, True) if thorough else (False,)):
+                units.append({"kind": "t1-sched", "graphs": graphs, "text": text, "over": "default", "w": 2, "cap": 512,
+                              "warm": warm, "warm_text": text})
+    for tiers in ([["exact_semantic"], ["cluster_semantic"], ["archive"]] if thorough else [["exact_semantic"], ["cluster_semantic"]]):
+        units.append({"kind": "t2-sched", "mem": list(T2_BASE_EPISODES[:4]), "tiers": tiers, "k": 2, "m": 1, "w": 2, "text": T2_TEXT})
+    return units
+
+
+def _sched_files(kind):
+    if kind == "t1-sched":
+        return [t1_mod.__file__]
+    import clematis.engine.stages.t2.parallel as _t2par
+    import clematis.memory.index as _idx
+    return [_t2par.__file__, _idx.__file__]
+
+
+def _sched_call(case):
+    """zero-argument function: fresh world, process-global caches reset, the parallel stage call; ('ok', result) | ('exc', e)"""
+    if case["kind"] == "t1-sched":
+        cfg_par = _t1_cfg(case["over"], case["cap"], case["w"], True)
+        cfg_seq = _t1_cfg(case["over"], case["cap"], case["w"], False)
+
+        def prepare():
+            W.reset_globals()
+            state = W.make_world("W2")
+            state["active_graphs"] = list(case["graphs"])
+            if case["warm"]:
+                t1_mod.t1_propagate(W.make_ctx(cfg_seq, "A", 1), state, case["warm_text"])
+            return state
+
+        def call(state):
+            try:
+                return ("ok", t1_mod.t1_propagate(W.make_ctx(cfg_par, "A", 2), state, case["text"]))
+            except HarnessError:
+                raise
+            except Exception as e:  # noqa: BLE001
+                return ("exc", e)
+        return prepare, call
+    cfg = _t2_cfg(case["tiers"], case["k"], case["m"], case["w"], True)
+    t1 = types.SimpleNamespace(graph_deltas=[], metrics={})
+
+    def prepare():
+        W.reset_globals()
+        return _t2_state(case["mem"])
+
+    def call(state):
+        try:
+            return ("ok", t2_core.t2_semantic(W.make_ctx(cfg, "A", 1), state, case["text"], t1))
+        except HarnessError:
+            raise
+        except Exception as e:  # noqa: BLE001
+            return ("exc", e)
+    return prepare, call
+
+
+def _sched_compare(case, seq, par, choices):
+    if case["kind"] == "t1-sched":
+        c = dict(case, kind="t1")
+        found = _t1_compare(c, seq, par)
+        return [(sig.replace("t1-parallel:", "t1-schedule:"), what) for sig, what in found]
+    gate = types.SimpleNamespace(calls=[{"n": 2, "w": case["w"], "merge_fn_none": False, "order_key_none": False}], ctl=None)
+    return [("t2-schedule:" + k, "%s: %s" % (_t2_tag(dict(case, kind="t2")), d)) for k, d in _t2_diff(seq, par, gate)]
+
+
+def _sched_one(case, prefix, strict=True):
+    from mc import sched_pool
+    pe = sched_pool.PoolExplorer(par_mod, _sched_files(case["kind"]), 1)
+    prepare, call = _sched_call(case)
+    state = prepare()
+    return pe.run_one(lambda: call(state), prefix, strict=strict)
+
+
+def _sched_seq(case):
+    if case["kind"] == "t1-sched":
+        return _t1_exec(dict(case, kind="t1"), None)[0]
+    return _t2_exec(dict(case, kind="t2"), None)[0]
+
+
+def sched_roots(units, st):
+    from mc import sched
+    items = []
+    for case in units:
+        ex, par = _sched_one(case, [])
+        if ex is None:
+            raise HarnessError("schedule leg: %r did not fan out" % (case,))
+        ex2, par2 = _sched_one(case, [])
+        if ex2 is None or ex2.trace != ex.trace:
+            raise HarnessError("schedule leg: the default schedule of %r is not reproducible" % (case,))
+        for child in sched.children(ex.trace, 0, 1):
+            items.append((case, child))
+        items.append((case, []))
+    return items
+
+
+def _sched_worker(chunk, st: Stats):
+    from mc import sched
+    import logging
+    logging.disable(logging.CRITICAL)
+    seqs: Dict[str, Any] = {}
+    for case, root in chunk:
+        key = W.jd(case)
+        if key not in seqs:
+            seqs[key] = _sched_seq(case)
+        seq = seqs[key]
+        stack = [root]
+        first = True
+        while stack:
+            prefix = stack.pop()
+            ex, par = _sched_one(case, prefix)
+            if ex is None:
+                raise HarnessError("schedule leg: %r did not fan out under a replayed prefix" % (case,))
+            st.add("transitions")
+            st.add("validated")
+            st.add("schedule_executions")
+            if ex.preemptions() > 0:
+                st.add("nontrivial")
+            st.distinct("states", ("sched", key, tuple(ex.choices())))
+            if par is None or ex.deadlock:
+                _viol(st, "%s:deadlock" % case["kind"], "%r deadlocks under schedule %r" % (case, ex.choices()), dict(case, choices=ex.choices()))
+            else:
+                st.distinct("outcomes", ("sched", case["kind"], par[0], type(par[1]).__name__ if par[0] == "exc" else len(getattr(par[1], "graph_deltas", getattr(par[1], "retrieved", [])))))
+                for sig, what in _sched_compare(case, seq, par, ex.choices()):
+                    _viol(st, sig, what + " [worker schedule %r, %d preemption(s)]" % (ex.choices(), ex.preemptions()), dict(case, choices=ex.choices()))
+            if not (first and not root):
+                stack.extend(sched.children(ex.trace, len(prefix), 1))
+            first = False
+
+
 def run(run: Run) -> None:
     import logging
     logging.disable(logging.CRITICAL)
@@ -924,7 +1062,13 @@ def run(run: Run) -> None:
     run.pmap(_t1_worker, tu, chunks=256)
     t2 = _time.time()
     run.pmap(_t2_worker, t2u, chunks=512)
-    run.notes["wall_s_by_part"] = {"helper": round(t1 - t0, 1), "t1": round(t2 - t1, 1), "t2": round(_time.time() - t2, 1)}
+    t3 = _time.time()
+    su = sched_units(run.thorough)
+    items = sched_roots(su, run)
+    run.notes["schedule_units"] = len(su)
+    run.notes["schedule_subtrees"] = len(items)
+    run.pmap(_sched_worker, items, procs=16)
+    run.notes["wall_s_by_part"] = {"helper": round(t1 - t0, 1), "t1": round(t2 - t1, 1), "t2": round(t3 - t2, 1), "schedules": round(_time.time() - t3, 1)}
     # concrete samples chosen by position in the enumeration (deterministic, independent of worker scheduling)
     run.samples = []
     for units, part in ((hu, "helper"), (tu, "t1"), (t2u, "t2")):
@@ -948,8 +1092,10 @@ def run(run: Run) -> None:
                     len(tu), len(t2u), 5 if run.thorough else 4, 5 if run.thorough else 4,
                     len(t2_history_units(run.thorough)), 4 if run.thorough else 3,
                     " (+ clear() before any query, + two clear-and-refill cycles)" if run.thorough else ""))
-    run.assume("completion order = order in which the task bodies run to completion and their futures become done; the bodies "
-               "execute one at a time (interleavings *inside* two task bodies, i.e. at the cache lock points, are explored by C15)")
+    run.assume("completion order = order in which the task bodies run to completion and their futures become done; in those legs the bodies "
+               "execute one at a time.  Interleavings INSIDE two task bodies are the schedule leg: the stage's pool is replaced by "
+               "baton-scheduled workers, scheduling points = line events of t1.py resp. t2/parallel.py + memory/index.py (cache and store "
+               "methods in other files are atomic steps; their lock points are C15's), two workers, every schedule with <= 1 preemption")
     run.assume("a ThreadPoolExecutor of w threads starts work items in submit order (checked by a probe on the real pool at start-up); "
                "tasks the model expects to be running are awaited, a missing one is a harness error, never a verdict -- except a "
                "task whose Future the implementation cancelled while it was still queued: that is observed through the future's "
@@ -995,4 +1141,11 @@ def replay(case):
         seq, _ = _t2_exec(c, None)
         par, g = _t2_exec(c, "census" if case.get("order") is None else tuple(case["order"]))
         return [("t2-parallel:" + k, "%s: %s" % (_t2_tag(c), d)) for k, d in _t2_diff(seq, par, g)]
+    if kind in ("t1-sched", "t2-sched"):
+        c = {k: v for k, v in case.items() if k != "choices"}
+        seq = _sched_seq(c)
+        ex, par = _sched_one(c, [(int(x), None) for x in case.get("choices", [])], strict=False)
+        if par is None:
+            return [("%s:deadlock" % kind, "deadlock")]
+        return _sched_compare(c, seq, par, case.get("choices", []))
     raise HarnessError("unknown case kind %r" % (kind,))
